@@ -11,7 +11,7 @@ RULE = ('two generation modes: (a) geographic positions as in C01 -> geo2grid ->
         '|dlon|=30deg inside the accepted range, latitudes >= 1e-6 deg inside the band) -> grid2geo compared with the '
         'tm_exact inverse, -> geo2grid closure <= 0.2 mm, mirrored coordinate in the other hemisphere, and the '
         'stand-alone mga2gda.grid2geo for southern UTM/GRS80; non-trivial = valid coordinate of the quantified domain '
-        '(decided by the oracle; rejected ones are counted, not judged); 3 % of the cases are preceded by one or two calls the property does not speak about (latitude/longitude/zone outside the accepted ranges, NaN, strings, invalid hemisphere words): not judged, exceptions swallowed, the judged call after them must be as right as ever.  distinct = class buckets')
+        '(decided by the oracle; rejected ones are counted, not judged); 3 % of the cases are preceded by one or two calls the property does not speak about (latitude/longitude/zone outside the accepted ranges, NaN, strings, invalid hemisphere words): not judged, exceptions swallowed, the judged call after them must be as right as ever.  distinct = class buckets Grid cases also go through CoordTM.geo() in one of the six notations (chosen by the case\'s hash) and must give the functional inverse\'s position.')
 ASSUMPTIONS = ['tm_exact oracle (self-validated each shard)',
                '"within 2e-9 degrees" is read as angular distance on the ground hypot(dlat, dlon*cos lat) (DESIGN.md C02)',
                'mirror latitudes/longitudes may differ by one unit of the 11-decimal output rounding (1.5e-11 deg)']
